@@ -59,7 +59,7 @@ Compl(st, r) == IF Has(st, r) THEN (CHOOSE x \in st : Ref(x) = r)[5] ELSE 0
 SrcTags(st, repo) == {x[3] : x \in {y \in st : y[1] = "src" /\ y[2] = repo}}
 SrcRepos(st) == {x[2] : x \in {y \in st : y[1] = "src"}}
 SetTag(st, r, img, c) == {x \in st : Ref(x) # r} \cup (IF img = "" THEN {} ELSE {<<r[1], r[2], r[3], img, c>>})
-ToSet(s) == {s[i] : i \in DOMAIN s}
+SeqSet(s) == {s[i] : i \in DOMAIN s}
 InS(x, s) == \E i \in DOMAIN s : s[i] = x
 
 \* ------------------------------------------------------------ selection (the statement)
